@@ -59,14 +59,21 @@ def checks(w):
 
 # ---- expectations from a data recipe --------------------------------------------------------------------------------
 
-def excel_serial(d: _dt.date) -> float:
+def excel_serial(d: _dt.date, date1904: bool = False) -> float:
+    if date1904:
+        return float((d - _dt.date(1904, 1, 1)).days)
     n = (d - _dt.date(1899, 12, 31)).days
     if n > 59:
         n += 1
     return float(n)
 
 
-def expected_of(rec: dict):
+def chart_is_1904(chart_blob: bytes) -> bool:
+    d = refpkg.parse(chart_blob).find(C + "date1904")
+    return d is not None and d.get("val", "1") in ("1", "true")
+
+
+def expected_of(rec: dict, date1904: bool = False):
     kind = rec["kind"]
     exp = {"kind": kind, "names": [s["name"] for s in rec["series"]]}
     if kind == "cat":
@@ -89,7 +96,7 @@ def expected_of(rec: dict):
             labels = []
             for c in cats:
                 if isinstance(c, dict):
-                    labels.append(excel_serial(_dt.date.fromisoformat(c["date"])))
+                    labels.append(excel_serial(_dt.date.fromisoformat(c["date"]), date1904))
                 else:
                     labels.append(c)
             exp["labels"] = labels
@@ -182,6 +189,18 @@ DATA_TAGS = {C + t for t in ("tx", "cat", "val", "xVal", "yVal", "bubbleSize")}
 def masked(chart_blob: bytes, keep: int) -> bytes:
     root = etree.fromstring(chart_blob, etree.XMLParser(remove_blank_text=True))
     sers = list(root.iter(C + "ser"))
+
+    def _rank(ser):
+        par = ser.getparent()
+        gp = par.getparent() if par is not None else None
+        pos = list(gp).index(par) if gp is not None else 0
+        e = ser.find(C + "order")
+        try:
+            return (pos, int(e.get("val")))
+        except (AttributeError, TypeError, ValueError):
+            return (pos, 10 ** 9)
+    # which series survive a replacement with fewer series: plots in document order, within a plot by c:order (not document order)
+    sers = [s_ for _r, _i, s_ in sorted((_rank(s_), i_, s_) for i_, s_ in enumerate(sers))]
     for i, ser in enumerate(sers):
         if i >= keep:
             ser.getparent().remove(ser)
@@ -218,7 +237,9 @@ def verify_workbook(w, chart_blob: bytes, xlsx_blob: bytes, when):
     d1904 = root.find(C + "date1904")
     chart_1904 = d1904 is not None and d1904.get("val", "1") in ("1", "true")
     if chart_1904 != wb.date1904:
+        # known finding F-28: replace_data on a 1904-system chart caches 1904 serials but always writes a 1900-system workbook
         w.report("c08|date-system-differs", "chart date1904=%s workbook date1904=%s" % (chart_1904, wb.date1904), CLAUSES["c08-cell"])
+    w.scratch["c08_systems_differ"] = chart_1904 != wb.date1904
     n = 0
     for f in root.iter(C + "f"):
         ref = f.getparent()
@@ -285,6 +306,14 @@ def verify_workbook(w, chart_blob: bytes, xlsx_blob: bytes, when):
 
 
 def _report_cell(w, wb, row, col, cache_text, cell, kind, when, detail, is_cat=False):
+    if is_cat and kind == "numRef" and w.scratch.get("c08_systems_differ"):
+        try:
+            if abs(abs(float(cell) - float(cache_text)) - 1462.0) <= 1.0:
+                # the same finding seen cell by cell: the two date systems are 1462 days apart
+                w.report("c08|date-system-differs", detail, CLAUSES["c08-cell"])
+                return
+        except (TypeError, ValueError):
+            pass
     if is_cat and kind == "numRef":
         try:
             cv, kv = float(cell), float(cache_text)
@@ -340,7 +369,7 @@ def _after_data_op(w, deck, sl, sh, chart, rec, when, before_blob=None, n_before
     key = "%d|%d" % (sl.slide_id, sh.shape_id)
     blob = chart.part.blob
     m = _memo(deck)["charts"].setdefault(key, {})
-    exp = expected_of(rec)
+    exp = expected_of(rec, chart_is_1904(chart.part.blob))      # "dates as serial numbers in the chart's date system"
     if "c07" in checks(w):
         verify_xsd(w, deck, key, blob, when)
         if not list(chart.plots):
@@ -395,6 +424,26 @@ def _grow(w, deck, a):
         raise O.Skip("no kept chart data")
     cd, rec = ent
     vals = a["vals"]
+    if rec["kind"] == "cat" and isinstance(rec["categories"], dict):
+        # multi-level categories: a new leaf under a group that is NOT the last one (positions of the later leaves shift), reached through
+        # the kept object's own category objects; every series gets one more value
+        tree = rec["categories"]["tree"]
+        gi = a["ser"] % max(1, len(tree) - 1) if len(tree) > 1 else 0
+        node, cat = tree[gi], cd.categories[gi]
+        while node.get("sub") and node["sub"][0].get("sub"):
+            node, cat = node["sub"][0], cat.sub_categories[0]
+        if not node.get("sub"):
+            raise O.Skip("single-level branch")
+        for k in range(a["n"]):
+            lab = "%s%d" % (a["label"], k)
+            cat.add_sub_category(lab)
+            node["sub"].append({"label": lab})
+            for i, s_ in enumerate(cd):
+                s_.add_data_point(vals[(i + k) % len(vals)])
+                rec["series"][i]["values"].append(vals[(i + k) % len(vals)])
+        w.stats.hit("c07_chartdata_grown")
+        w.stats.hit("c07_multilevel_leaf_added_under_inner_group")
+        return
     if rec["kind"] == "cat":
         if isinstance(rec["categories"], dict) or rec.get("cat_type") != "str":
             raise O.Skip("only flat string categories are grown")
@@ -680,7 +729,7 @@ class ChartOracle(Oracle):
             chart = sh.chart
             if "c07" in checks(w):
                 verify_xsd(w, deck, key, chart.part.blob, when)
-                verify_readings(w, chart, expected_of(m["rec"]), when)
+                verify_readings(w, chart, expected_of(m["rec"], chart_is_1904(chart.part.blob)), when)
             if "c08" in checks(w):
                 xb = _xlsx_blob(chart)
                 if xb is None:
@@ -719,6 +768,11 @@ def gen_trace(seed: int, tier: str, which=("c07",)) -> dict:
     common.rewritten_between_sessions(seed, events, hows=("bool_words",))
     rs = S("start")
     start = {"deck": rs.choice(CHART_DECKS), "form": rs.choice(["stream", "path", "dir"])}
+    if start["deck"] != "default.pptx" and rs.random() < 0.5:
+        # the deck's charts as PowerPoint leaves them after edits python-pptx never makes (series numbers out of document order, the 1904
+        # date system), or with booleans spelled as words
+        start["xform"] = [rs.choice([{"kind": "rewrite_charts", "how": "reverse_idx"}, {"kind": "rewrite_charts", "how": "date1904"},
+                                     {"kind": "rewrite_slides", "how": "bool_words"}])]
     pre = [{"op": "add_slide", "layout": 6, "dt": 1.0}]
     rp = S("pre")
     for _ in range(rp.choice([1, 1, 2])):
@@ -806,6 +860,12 @@ def pinned_traces(tier, which=("c07",)):
     if pid == "C08":
         kf.append(("F-26", [dict(box, op="c07.add_chart", type="LINE", data={"kind": "cat", "cat_type": "date", "categories": [
             {"date": "2016-12-27", "time": "23:30:00"}, {"date": "2016-12-28", "time": "00:00:00"}], "series": [{"name": "s", "values": [1, 2]}]})]))
+    if pid == "C08":
+        kf28 = [{"op": "c07.replace", "chart": 0, "datas": {"cat": {"kind": "cat", "cat_type": "date", "categories": [{"date": "2016-12-27"}, {"date": "2016-12-28"}],
+                                                                 "series": [{"name": "s", "values": [1, 2]}]},
+                                                           "xy": _simple("xy", 1, [2]), "bubble": _simple("bubble", 1, [2])}}]
+        out.append({"property": pid, "seed": "known-F-28", "tier": "pinned", "config": {"pinned": True, "chart_checks": list(which)},
+                    "start": [{"deck": "f-cht-replace-data.pptx", "xform": [{"kind": "rewrite_charts", "how": "date1904"}]}], "events": kf28})
     for name, evs in kf:
         out.append({"property": pid, "seed": "known-%s" % name, "tier": "pinned", "config": {"pinned": True, "chart_checks": list(which)},
                     "start": [{"deck": "default"}], "events": [{"op": "add_slide", "layout": 6}] + evs})
@@ -822,6 +882,18 @@ def pinned_traces(tier, which=("c07",)):
                {"op": "c07.replace", "chart": 0, "datas": {kind: d0}, "slot": 0},
                dict(box, op="c07.add_chart", type=t, data=d0, slot=0), {"op": "checkpoint", "sink": "seekable"}, {"op": "restart"}]
         out.append({"property": pid, "seed": "rolling-%s" % t, "tier": "pinned", "config": {"pinned": True, "chart_checks": list(which)},
+                    "start": [{"deck": "default"}], "events": evs})
+    # multi-level chart data kept and grown under a non-last group between uses
+    ml = {"kind": "cat", "cat_type": "multi", "categories": {"tree": [{"label": "G1", "sub": [{"label": "a"}, {"label": "b"}]}, {"label": "G2", "sub": [{"label": "c"}]},
+                                                                       {"label": "G3", "sub": [{"label": "d"}, {"label": "e"}]}]},
+          "series": [{"name": "s1", "values": [1.0, 2.0, 3.0, 4.0, 5.0]}, {"name": "s2", "values": [5.0, 4.0, 3.0, 2.0, 1.0]}]}
+    g = {"vals": [1.5, -2.0, 3.25, 4.0, 5.5, 6.0, 7.0, 8.0, 9.0, 10.0, 11.0, 12.0], "label": "L", "name": "new"}
+    for t in ("BAR_CLUSTERED", "LINE"):
+        evs = [{"op": "add_slide", "layout": 6}, dict(box, op="c07.add_chart", type=t, data=ml, slot=0),
+               dict(g, op="c07.grow", slot=0, what="category", n=1, ser=0), {"op": "c07.replace", "chart": 0, "datas": {"cat": ml}, "slot": 0},
+               dict(g, op="c07.grow", slot=0, what="category", n=2, ser=1), dict(box, op="c07.add_chart", type=t, data=ml, slot=0),
+               {"op": "c07.replace", "chart": 0, "datas": {"cat": ml}, "slot": 0}, {"op": "checkpoint", "sink": "seekable"}, {"op": "restart"}]
+        out.append({"property": pid, "seed": "rolling-multilevel-%s" % t, "tier": "pinned", "config": {"pinned": True, "chart_checks": list(which)},
                     "start": [{"deck": "default"}], "events": evs})
     # an unfinished chart-data object is refused, completed by the caller and used again (same object)
     for t in ("LINE", "BAR_CLUSTERED", "PIE", "AREA_STACKED", "RADAR"):
@@ -845,4 +917,11 @@ def pinned_traces(tier, which=("c07",)):
         evs += [{"op": "checkpoint", "sink": "seekable"}, {"op": "restart"}]
         out.append({"property": pid, "seed": "corpus-%s" % deck, "tier": "pinned", "config": {"pinned": True, "chart_checks": list(which)},
                     "start": [{"deck": deck}], "events": evs})
+        dates = {"kind": "cat", "cat_type": "date", "categories": [{"date": "1903-12-31"}, {"date": "1904-01-01"}, {"date": "2016-12-27"}, {"date": "2017-07-01", "time": "00:00:00"}],
+                 "series": [{"name": "s%d" % i, "values": [1.0 + i, 2.0, 3.0, 4.0]} for i in range(7)]}
+        for how in ("reverse_idx", "date1904"):
+            evs2 = [{"op": "c07.replace", "chart": k, "held": k % 2 == 0, "datas": {"cat": dates, "xy": _simple("xy", 7, [2, 3]), "bubble": _simple("bubble", 7, [2, 2])}} for k in range(12)]
+            evs2 += [{"op": "checkpoint", "sink": "seekable"}, {"op": "restart"}]
+            out.append({"property": pid, "seed": "corpus-%s-%s" % (deck, how), "tier": "pinned", "config": {"pinned": True, "chart_checks": list(which)},
+                        "start": [{"deck": deck, "xform": [{"kind": "rewrite_charts", "how": how}]}], "events": evs2})
     return out
